@@ -99,6 +99,27 @@ CHECKS = {
 
 NOT_YET = {}
 
+# what is added to the level text about process environments (DESIGN 3.1a) and the last directed additions
+ENVIRONMENTS = {
+    'C01': 'A subset of the units again under python -O.',
+    'C02': 'The whole universe of one-byte and of two-byte keywords searched against databases of such keywords. A subset of the units again under python -O and with a HOME in which nothing can be created.',
+    'C04': 'The same (K, DB) encrypted by three workers forked from a process that has already built an index: entries disjoint across processes.',
+    'C05': 'A subset of the units again on hosts reporting 6 and 7 processors.',
+    'C06': 'Three workers forked from a process that has already built an index must not repeat a placement.',
+    'C07': 'A subset of the units again under python -O and under a finite address-space limit.',
+    'C08': 'A subset of the units again under python -O.',
+    'C09': 'The workflow cut at each of its 6 step boundaries into two real interpreters with different hash seeds that share only the on-disk state.',
+    'C10': 'One server process serving 220 (800) consecutive connections, again under a 128 open-files limit; BFS again under python -O.',
+    'C11': 'A subset of the units again under python -O.',
+    'C14': 'Three workers forked from a process that has used the cipher: IVs, ciphertexts and generated keys pairwise distinct across processes. Contract units again under python -O.',
+    'C15': 'Contract units again under python -O.',
+    'C16': 'Contract units again under python -O.',
+    'C17': 'A subset of the units again under python -O and under the C locale with UTF-8 mode off.',
+    'C18': 'A subset of the units again under python -O.',
+    'C19': 'DFS units again under python -O and, with relative array paths, in a child interpreter whose working directory at import differs from the one at use.',
+    'C20': 'PickledDict under a relative path with the working directory elsewhere between open and every sync/close; DFS units again under python -O.',
+}
+
 
 def build():
     props = [json.loads(l)['id'] for l in open(os.path.join(VERIF, 'properties.jsonl'))]
@@ -107,6 +128,8 @@ def build():
         if pid not in CHECKS:
             continue
         eng, tech, text, note, ref = CHECKS[pid]
+        if pid in ENVIRONMENTS:
+            text = text.rstrip() + ' ' + ENVIRONMENTS[pid]
         checks.append({
             'property_id': pid,
             'quick_cmd': './check %s quick' % pid,
